@@ -8,6 +8,7 @@ error, within a deterministic work budget and a memory limit.
 
 from __future__ import annotations
 
+import json
 import os
 import random
 import re
@@ -105,7 +106,7 @@ def _pick_offset(rng, lay):
             return min(bs, f["end"] - 1), "zone-type"
         if cc < 0.42:
             return min(bs + 1 + rng.randrange(0, 8), f["end"] - 1), "zone-head"
-        if cc < 0.62:
+        if cc < 0.70:
             return max(f["end"] - 1 - rng.randrange(0, 24), f["data_start"]), "zone-tail"
         return rng.randrange(f["data_start"], f["end"]), "zone-body"
     if c < 0.90 and lay["other_fields"]:
@@ -116,8 +117,14 @@ def _pick_offset(rng, lay):
     return rng.randrange(0, lay["n"]), "uniform"
 
 
-def _pick_byte(rng, old):
+def _pick_byte(rng, old, data=None, off=0):
     c = rng.random()
+    if data is not None and c < 0.22:
+        # copy a neighbouring byte: makes a decoded field equal to one of its siblings (two rules with the same month,
+        # two equal transitions, a count equal to a length ...), a class of damage boundary values never produce
+        j = off + rng.choice([-1, 1]) * rng.randrange(1, 13)
+        if 0 <= j < len(data):
+            return data[j]
     if c < 0.45:
         v = rng.choice([0x00, 0x01, 0x02, 0x7F, 0x80, 0x81, 0xFF, 0xFE, 0xC0, 0xE0, 0xA0, 0x1F, 0x20])
     elif c < 0.65:
@@ -147,12 +154,12 @@ def gen_corruption(seed):
         kind = rng.choices(["sub", "ins", "del"], [70, 15, 15])[0]
         old = data[off] if off < len(data) else 0
         if kind == "sub":
-            v = _pick_byte(rng, old)
+            v = _pick_byte(rng, old, data, off)
             if v == old:
                 v = old ^ 0x80
             plan.append(["sub", off, v])
         elif kind == "ins":
-            plan.append(["ins", off, _pick_byte(rng, old)])
+            plan.append(["ins", off, _pick_byte(rng, old, data, off)])
         else:
             plan.append(["del", off])
         regions.append(reg)
@@ -175,12 +182,23 @@ def gen_run(seed):
     return gen_corruption(seed)
 
 
+def corpus():
+    p = os.path.join(os.path.dirname(os.path.abspath(__file__)), "c20_corpus.json")
+    try:
+        with open(p) as f:
+            return json.load(f)
+    except FileNotFoundError:
+        return []
+
+
 def tier_layout(tier, master_seed):
-    """-> (n_cases, case(k)). Truncations first (enumerated), seeded corruptions after."""
+    """-> (n_cases, case(k), n_enumerated). Pinned regression plans first, then truncations (enumerated), then seeded
+    corruptions."""
     fs = files()
+    corp = corpus()
     if tier == "thorough":
         truncs = [(fi, t) for fi in (0, 1) for t in range(len(fs[fi]))]
-        n_corrupt = 600_000
+        n_corrupt = 250_000
     else:
         truncs = []
         rng = random.Random(master_seed ^ 0xC20)
@@ -191,15 +209,20 @@ def tier_layout(tier, master_seed):
             pts |= {rng.randrange(len(fs[fi])) for _ in range(300 if tier == "quick" else 100)}
             truncs += [(fi, t) for t in sorted(pts) if t < len(fs[fi])]
         n_corrupt = 3400 if tier == "quick" else 600
-    n = len(truncs) + n_corrupt
+    n = len(corp) + len(truncs) + n_corrupt
 
     def case(k):
         rs = derive_seed(master_seed, PROP, k)
+        if k < len(corp):
+            c = corp[k]
+            return {"prop": PROP, "seed": rs, "mode": "corpus", "file": c["file"], "plan": c["plan"], "regions": ["corpus"],
+                    "all_ids": False, "extra_ids": 1, "ids_seed": 7, "tracemalloc": False}  # fmt: skip
+        k -= len(corp)
         if k < len(truncs):
             return gen_trunc(truncs[k][0], truncs[k][1], rs)
         return gen_corruption(rs)
 
-    return n, case, len(truncs)
+    return n, case, len(corp) + len(truncs)
 
 
 _CASE = None
@@ -301,7 +324,7 @@ def _choose_ids(spec, loaded_ids, ctl):
     canon_hit = set()
     for zid, f in lay["zones"].items():
         for off in damaged:
-            if spec["mode"] == "trunc":
+            if any(x[0] == "trunc" and x[1] == off for x in spec["plan"]):
                 hit = f["start"] - 2 <= off <= f["end"] + 2
             else:
                 hit = f["start"] - 1 <= off <= f["end"]
@@ -548,7 +571,7 @@ ASSUMPTIONS = [
     "zones are fetched, not queried: behaviour of a zone object built from damaged but accepted data is outside the statement",
 ]
 
-TIERS = {"quick": {"budget": 240.0}, "thorough": {"budget": 3000.0}}
+TIERS = {"quick": {"budget": 240.0}, "thorough": {"budget": 4200.0}}
 
 
 def main(a, boot_info):
